@@ -55,6 +55,8 @@ var c06Exprs = []string{
 	"values(`{\"b\":[1],\"a\":[2]}`)[]", "let $v = a in [$v, sort($v)]", "let $v = `[2,1]` in [sort($v), $v]", "map(&@, a)", "map(&[@], a)", "map(&sort(b), a)", "to_array(a)", "to_array(@)", "to_array(b)", "$", "$.a", "a | $", "[$, @]",
 	"max_by(a, &a)", "min_by(a, &a)", "max(a)", "min(a)", "not_null(a, b)", "a || b", "a && b", "a", "c", "items(c)", "keys(c)", "values(c)", "join(',', a)", "split(b, 'a')", "length(a)", "a[*].b[]", "a[].b[]", "a[*].b[0]",
 	"sort_by(a, &i)[*].i", "sort_by(a, &a)[*].i", "a[?k == 'a'][*].i", "group_by(a, &k).a[*].i", "a[::2]", "a[1::2][*].i", "to_string(a)", "to_string(@)", "a == a", "[a] == [a]", "contains(a, `1`)", "sum(a[?@ != null])", "avg(a)",
+	"[0]", "[1]", "[-1]", "[255]", "[0] || 'none'", "length([1])", "[0][0]", "[1][0]", "[0].a", "[2]", "[0] == [1]", "`1`", "'const'", "`[1,2]`[0]", "abs(`-1`)", "[0:1]", "@", "type(@)", "length(@)",
+	"sort_by(a, b)", "map(a, @)", "a[::0]", "abs()", "nosuch(a)", "a[", "max_by(a, a)",
 	"b[*][0]", "b[*][1:]", "from_items(b).k", "flatten", "a[*][]", "[a, a][]", "[a, a][*][1:]", "{x: a}.x[1:]", "merge(c).a", "[c, d][*].a", "sort(a)[1:]", "reverse(a)[1:]", "reverse(sort(a))", "sort(reverse(a))",
 }
 
@@ -205,6 +207,14 @@ func c06Run(r *core.Run) {
 		if r.Expired() {
 			return
 		}
+		// MustCompile panics exactly when Compile fails
+		ce, _ := core.Compile(e)
+		_, panicked, _ := core.MustCompile(e)
+		r.Add("evaluations", 2)
+		if panicked != (ce == nil) {
+			r.Violate(&core.Violation{Sig: "C06/mustcompile-disagrees-with-compile/" + fnOf(e), Desc: fmt.Sprintf("MustCompile(%q) vs Compile(%q)", e, e),
+				Point: map[string]any{"expr": e, "history": "", "warm": false, "doc": "-", "must": true}, Expected: fmt.Sprintf("MustCompile panics = %v (Compile failed = %v)", ce == nil, ce == nil), Actual: fmt.Sprintf("panicked = %v", panicked)})
+		}
 		fresh := map[int]core.Obs{}
 		var rec func(idx []int)
 		rec = func(idx []int) {
@@ -235,6 +245,15 @@ func c06Run(r *core.Run) {
 }
 
 func c06Judge(r *core.Run, phase string, pt map[string]any) *core.Violation {
+	if pbool(pt, "must") {
+		e := pstr(pt, "expr")
+		ce, _ := core.Compile(e)
+		_, panicked, _ := core.MustCompile(e)
+		if panicked != (ce == nil) {
+			return &core.Violation{Sig: "C06/mustcompile-disagrees-with-compile", Desc: "MustCompile vs Compile", Point: pt, Expected: fmt.Sprint(ce == nil), Actual: fmt.Sprint(panicked)}
+		}
+		return nil
+	}
 	var idx []int
 	for _, s := range strings.Split(pstr(pt, "history"), ",") {
 		var j int
